@@ -4,20 +4,20 @@ import json, subprocess
 claimed = {
  "C01": ("bridge", "exploration", "5 C01", "seeded schedule/fault search over oracle vote interleavings on the real app (competing claims, early votes, offline oracles that keep voting, re-bond cycles); state invariants on attestation store + event history; a one-shot forwarder contract re-enters executeClaim from inside the bridge call being executed - what executing a parked claim creates is bounded by the claim's own amounts"),
  "C02": ("bridge", "exploration", "5 C02", "seeded search over stake distributions, vote orders and stake changes; exact-arithmetic recomputation of the tally; signer-vs-voter admission check incl. foreign-wrap transport fault and votes of offline / governance-removed oracles; claims tallied together are executed on branches and must have one effect (each voted for that very event)"),
- "C03": ("bridge", "exploration", "5 C03", "seeded Byzantine one-field claim variants (fields found by reflection) and threshold-crossing order; differential execution of every pair of variants that share an attestation on branches of the real state, full store dumps must be equal; for the event next to be observed every two-field re-split variant filed under the honest claim's attestation identity is executed next to the honest claim (a recorder contract makes data/memo/value observable)"),
- "C04": ("bridge", "exploration", "5 C04", "seeded multi-user multi-token bridge histories; conservation equations per token group, per-step balance deltas, withdrawability, evaluated after every step on committed state"),
- "C05": ("bridge", "exploration", "5 C05", "seeded send/cancel/fee-bump/batch/timeout/relay races; observational life-cycle model of every outgoing transfer and bridge call checked against raw pool/batch/call stores after every step"),
- "C06": ("bridge", "exploration", "5 C06", "seeded external-height/observation-lag/relayer schedules (late, out of order, after cancel, two tokens racing); executable model of FxBridgeLogic.sol is the judge for never-both; timeout-proved on observed heights; a minority oracle (< 1/3 of the power) lies about external heights - the observed height never exceeds the external chain's real height"),
- "C08": ("evm", "exploration", "5 C08", "seeded histories of conversions (messages, precompiles, inbound claims), governance toggles and agent contracts that touch a token directly and convert it through a precompile in the same transaction; escrow-vs-supply equations per pair kind, balance sums, index consistency after every step; swarm: the externally-owned token is either a FIP20 proxy or an assembled token whose failed transfers return false; duplicate-alias registrations; conversions above the sender's balance"),
- "C09": ("evm", "fault_enumeration", "5 C09", "generated agent-contract call trees (hand-assembled EVM bytecode) x revert placement x gas ladder; the return-data bitmap of the top-level call is the kept set K; the full store dump after the run must equal the dump after executing exactly the kept calls (mask replay) on a branch of the same state"),
- "C10": ("evm", "exploration", "5 C10", "victims that never sign vs attacker EOAs/contracts (incl. contracts the victim calls), forbidden call kinds, static frames, governance switches; victims' portfolios must not shrink except through share allowances"),
- "C11": ("evm", "exploration", "5 C11", "seeded staking-precompile histories incl. self transfers, reward blocks and validator downtime slashing; per-transfer share deltas, all registered crisis invariants on a branch after every step, exit liveness at end of run"),
- "C14": ("gov", "exploration", "5 C14", "seeded source portfolios (denoms, delegations, unbonding/redelegation entries, rewards) x governance involvement at every proposal stage; accepted migrations are judged differentially (portfolio equality, raw-store residue scan, crisis invariants) and followed through maturation after clock jumps; must-refuse cases probed"),
- "C15": ("gov", "exploration", "5 C15", "several concurrent proposals of different message types, deposits (also during voting), weighted votes, clock advance, custom per-type params changed by proposals; deposit ledger, activation threshold, per-type voting period/quorum, voting window fixed once voting started, decided proposals stay decided, all-or-nothing multi-message execution, tracked donations"),
+ "C03": ("bridge", "exploration", "5 C03", "seeded Byzantine one-field claim variants (fields found by reflection) and threshold-crossing order; differential execution of every pair of variants that share an attestation on branches of the real state, full store dumps must be equal; for the event next to be observed every two-field re-split variant filed under the honest claim's attestation identity is executed next to the honest claim (a recorder contract makes data/memo/value observable); structural variants (letter case, list order) and routing-target spellings produced by the code base's own target parser; deposits with erc20 / IBC targets, an open loop-back IBC channel in a third of the runs"),
+ "C04": ("bridge", "exploration", "5 C04", "seeded multi-user multi-token bridge histories; conservation equations per token group, per-step balance deltas, withdrawability, evaluated after every step on committed state; a third of the runs add an IBC voucher as one more representation of the bridged coin (alias), a loop-back channel and deposits with IBC targets: value that leaves over IBC is read from IBC core's packet commitments, the transfer module's stock moves by exactly the deposit, and after the run a parked deposit with an open route can be executed (bounded liveness on a branch); inbound bridge calls with a value to an accept-all contract; outgoing bridge calls through the precompile"),
+ "C05": ("bridge", "exploration", "5 C05", "seeded send/cancel/fee-bump/batch/timeout/relay races; observational life-cycle model of every outgoing transfer and bridge call checked against raw pool/batch/call stores after every step; the refund of an outgoing bridge call (failed result or timeout) reaches its refund address exactly, in whatever representation, and nobody else; timeout-boundary scenario (external chain parked at timeout-1 / timeout / timeout-2)"),
+ "C06": ("bridge", "exploration", "5 C06", "seeded external-height/observation-lag/relayer schedules (late, out of order, after cancel, two tokens racing); executable model of FxBridgeLogic.sol is the judge for never-both; timeout-proved on observed heights; a minority oracle (< 1/3 of the power) lies about external heights - the observed height never exceeds the external chain's real height; timeout-boundary scenario: the external chain is parked at exactly timeout-1 (or timeout, timeout-2), an event of that block is observed, and the object is relayed in the same external block"),
+ "C08": ("evm", "exploration", "5 C08", "seeded histories of conversions (messages, precompiles, inbound claims), governance toggles and agent contracts that touch a token directly and convert it through a precompile in the same transaction; escrow-vs-supply equations per pair kind, balance sums, index consistency after every step; swarm: the externally-owned token is either a FIP20 proxy or an assembled token whose failed transfers return false; duplicate-alias registrations; conversions above the sender's balance; a third of the runs drive the withdraw-and-redeposit cycle that puts coins of the externally-owned pair into users' hands and convert them to module and user addresses; the token can destroy itself - from then on the coin supply of its pair never grows"),
+ "C09": ("evm", "fault_enumeration", "5 C09", "generated agent-contract call trees (hand-assembled EVM bytecode) x revert placement x gas ladder; the return-data bitmap of the top-level call is the kept set K; the full store dump after the run must equal the dump after executing exactly the kept calls (mask replay) on a branch of the same state; query methods of the staking precompile are part of the alphabet (their effects must go the way of their frame too); share-allowance template (delegate, approve, child spends within / beyond allowance and delegation)"),
+ "C10": ("evm", "exploration", "5 C10", "victims that never sign vs attacker EOAs/contracts (incl. contracts the victim calls), forbidden call kinds, static frames, governance switches; victims' portfolios must not shrink except through share allowances; validators are slashed for downtime inside runs (a share is then worth less than a token), existing allowances are used at and around their value, bridge calls name a victim as refund address"),
+ "C11": ("evm", "exploration", "5 C11", "seeded staking-precompile histories incl. self transfers, zero-amount transfers, reward blocks and validator downtime slashing; per-transfer share deltas, all registered crisis invariants on a branch after every step, exit liveness at end of run"),
+ "C14": ("gov", "exploration", "5 C14", "seeded source portfolios (denoms, delegations, unbonding/redelegation entries, rewards) x governance involvement at every proposal stage; accepted migrations are judged differentially (portfolio equality, raw-store residue scan, crisis invariants) and followed through maturation after clock jumps; must-refuse cases probed, incl. a target that operates a validator but holds no staking record any more (scripted once per run)"),
+ "C15": ("gov", "exploration", "5 C15", "several concurrent proposals of different message types, deposits (also during voting), weighted votes, clock advance, custom per-type params changed by proposals (also malformed values, also for legacy-content proposals); deposit ledger, activation threshold, per-type voting period/quorum, voting window fixed once voting started, decided proposals stay decided, all-or-nothing multi-message execution, tracked donations"),
  "C16": ("gov", "fault_enumeration", "5 C16", "run-time enumeration of every registered message whose signer field is 'authority' x authority class x entry path (signed tx, authz exec, proposal with wrong authority, direct router call), injected into seeded histories; rejected injections must leave all stores byte-identical to a twin world; compare-and-set races for MsgUpdateStore"),
  "C17": ("c17", "exploration", "5 C17", "block transcripts recorded from runs of every engine are re-executed block by block in independent replicas (fresh processes at GOMAXPROCS 1 and 16/GOGC=1, a go1.26.8 binary, go1.26.8 inside a testing/synctest bubble with a fake wall clock, other node options, crash between FinalizeBlock and Commit with restart over goleveldb); app hash, tx results, events, validator and param updates must agree at every block"),
  "C18": ("c18", "fault_enumeration", "5 C18", "per input the failure is provoked at every distinguishable point with real inputs (callee contracts assembled per mode: actions x endings, disabled token pairs, gas-limit ladder, j-th proposal message invalid/panicking, failing event handlers); fail-late == fail-first on branches of the same state (full store dumps), designated outcome only; plus the same inputs through real transactions; 2-3 proposals ending in the same block in every order of {fails late, passes, fails first}; one run in four uses the IBC world: packets whose memo call fails in drawn ways must get an error acknowledgement and leave no effects"),
- "C19": ("ibc", "exploration", "5 C19", "09-localhost loop-back channels through real IBC core messages; seeded relayer faults (loss, duplication, reordering, forged acks, early timeouts, clock jumps); exact ledger of ERC-20/FX credits and refunds, dump equality on error acks, relation cleanup after honest drain"),
+ "C19": ("ibc", "exploration", "5 C19", "09-localhost loop-back channels through real IBC core messages; seeded relayer faults (loss, duplication, reordering, forged acks, early timeouts, clock jumps); exact ledger of ERC-20/FX credits and refunds (the transfer module account's own FX included), dump equality on error acks, relation cleanup after honest drain"),
  "C12": ("bridge", "exploration", "5 C12", "honest oracles sign digests from an independent ABI encoder; Byzantine confirmations (wrong key/object/chain id/prefix/truncated/garbage/foreign signer, a correctly signed confirmation submitted by somebody else - wrapped or direct) must be rejected; every stored confirmation is re-verified and must be executable by the contract model"),
  "C13": ("bridge", "exploration", "5 C13", "seeded oracle life cycles (bond, add-delegate, redelegate, slash, governance removal, unbonding period via clock jumps, unbond); registry bijection, stake ledger, justified-slash witness, bounded liveness of unbond after faults stop"),
  "C07": ("bridge", "exploration", "5 C07", "seeded search over aged states (crashed confirmers, elapsed signed windows, churn, governance) in the bridge world and, as surrogate workloads, the gov / evm / ibc worlds (concurrent proposals incl. all-abstain tallies, precompile histories, relaying); FinalizeBlock/Commit panics and errors are recovered and reported as halts"),
